@@ -262,7 +262,9 @@ prop("C08", ["prims.go", "c08.go"],
           thorough={"max_reversals": 3, "bound": "as quick with <= 3 reversals"}),
       run("both-directions", "harnessC08seq", ["established", "host-accepts", "plugin-accepts", "dial-first", "accept-first"], dpor=True,
           quick={"max_reversals": 2, "params": {"k": 1}, "bound": "one establishment in either direction (plugin accepts / host dials, or host accepts / plugin dials), accept-first or dial-first, symbolic gap and ID; all schedules with <= 2 reversals"},
-          thorough={"max_reversals": 1, "params": {"k": 2}, "max_wall_s": 1500, "bound": "two sequential establishments, each in either direction and either order, distinct symbolic IDs; all schedules with <= 1 reversal"})],
+          thorough={"max_reversals": 1, "params": {"k": 2}, "max_wall_s": 1500, "bound": "two sequential establishments, each in either direction and either order, distinct symbolic IDs; all schedules with <= 1 reversal"}),
+      run("same-id-both-ways", "harnessC08sameID", ["established", "host-accepts-first", "plugin-accepts-first", "dial-first", "accept-first"],
+          quick={"bound": "two establishments with ONE symbolic ID, the second in the opposite direction and starting a symbolic pause in [0, 10 s] after the first completed (timers armed by the first still running), each accept-first or dial-first with a symbolic gap < 5 s; canonical schedule, symbolic clock"})],
      [YAMUX, "the two brokers talk through an in-model FIFO streamer pair"], ["yamux", "broker stream"],
      "more than two establishments; bytes flowing on earlier connections (their streams staying open is checked); more reversals than the bound",
      text="Bounded symbolic model checking of the real mux branch of GRPCBroker (Accept, listenForKnocks, knock, muxDial, Run) with both real grpcmux muxers and blocked listeners over a yamux model, all schedules of the goroutines of one establishment up to the reversal bound: the stream dialled for n is delivered by the listener returned by Accept(n), the dial succeeds, and the main accept loop and session keep working.",
